@@ -241,7 +241,17 @@ def build_jobs(prop, tier):
         J.append(ReaderJob("c09", policy_suites("fasta", tier) + policy_suites("fastq", tier)))
     elif prop == "C13":
         fl = {"views": True}
-        J.append(ReaderJob("c13", plain_suites("fasta", tier, fl)[1:] + plain_suites("fastq", tier, fl)[1:]))
+        # every header over {space, 'a', a valid two-byte UTF-8 character split into its bytes, an invalid byte} up to
+        # length 4 (5 in the thorough tier), in a fixed record: ids/descriptions with leading, trailing, double spaces,
+        # invalid bytes only in the id or only in the description
+        import itertools
+        hb = [32, 97, 0xC3, 0xA9, 0xFF]
+        heads = [list(h) for n in range(0, q(tier, 4, 5) + 1) for h in itertools.product(hb, repeat=n)]
+        fa_in = [[62] + h + [10, 65, 67, 10, 71, 10] for h in heads]
+        fq_in = [[64] + h + [10, 65, 67, 10, 43, 10, 73, 73, 10] for h in heads]
+        hs = [("c13-headers-fasta", suite("fasta", {"list": fa_in}, [3, 64], {"fixed": [NEXT, SET0]}, chunks=[[0]], slots=1, extra=0, flags=fl), 2),
+              ("c13-headers-fastq", suite("fastq", {"list": fq_in}, [3, 64], {"fixed": [NEXT, SET0]}, chunks=[[0]], slots=1, extra=0, flags=fl), 2)]
+        J.append(ReaderJob("c13", plain_suites("fasta", tier, fl)[1:] + plain_suites("fastq", tier, fl)[1:] + hs))
     elif prop == "C14":
         J.append(ReaderJob("c14", fault_suites("fasta", tier) + fault_suites("fastq", tier) + pair_suites("fasta", tier, "C14") + pair_suites("fastq", tier, "C14")))
     elif prop == "C17":
@@ -337,7 +347,9 @@ class ParJob:
             traces += st.get("runs", 0)
             hang = hang or st.get("hang", False)
             files.append(op)
-        log("[drive] %s/record: %d runs" % (self.name, traces))
+            if hang:
+                break       # the call did not return: that is already the verdict (C08); do not wait for more watchdogs
+        log("[drive] %s/record: %d runs%s" % (self.name, traces, " (a run hung)" if hang else ""))
         # 2. schedules generated by TLC from the model, forced onto the real code
         nsched = q(tier, 300, 4000)
         sraw = os.path.join(wd, "sched.raw")
@@ -357,6 +369,8 @@ class ParJob:
         sfiles = []
         nfollowed = 0
         for i in range(0, len(lines), 150):
+            if hang:
+                break
             sp = os.path.join(wd, "sched_%d.ndjson" % i)
             open(sp, "w").write("\n".join(lines[i:i + 150]) + "\n")
             op = os.path.join(wd, "par_steer_%d.json" % i)
@@ -367,6 +381,7 @@ class ParJob:
             sfiles.append(op)
         log("[drive] %s/steer: %d schedules, %d followed to the last step" % (self.name, len(lines), nfollowed))
         samples.append({"schedule_from_tlc": json.loads(lines[0])})
+        afiles = []
         tv, n1 = self._validate("TraceParallel", files + sfiles, wd, "record+steer")
         notes += n1
         states += tv["states"]
@@ -376,18 +391,22 @@ class ParJob:
             mism.append({"props": m["props"], "why": m["why"], "kind": "parallel", "fmt": None, "op": None, "res_kind": r["result"],
                          "case": {"par_cfg": r["cfg"], "result": r["result"], "obs": r["obs"], "steer": r.get("steer")}, "job": self.name})
         # 3. the public entry points on real readers
-        afiles = []
         for fmt in ("fasta", "fastq"):
-            for k, (faults, n) in enumerate([(False, q(tier, 400, 4000)), (True, q(tier, 300, 3000))]):
+            for k, (faults, n) in enumerate([(False, q(tier, 400, 4000)), (True, q(tier, 300, 3000)), (True, q(tier, 300, 3000))]):
+                if hang:
+                    break
                 sp = os.path.join(wd, "api_%s_%d.json" % (fmt, k))
-                json.dump({"fmt": fmt, "n": n, "apis": ["parallel", "parallel_init", "read_parallel"], "faults": faults,
-                           "gen": {"maxrec": 9, "maxfield": 4, "damage": 25 if k == 0 else 40}}, open(sp, "w"))
+                sd = {"fmt": fmt, "n": n, "apis": ["parallel", "parallel_init", "read_parallel"], "faults": faults,
+                      "gen": {"maxrec": 9, "maxfield": 4, "damage": 25 if k == 0 else 40}}
+                if k == 2:
+                    sd.update({"focus": "recinit", "gen": {"maxrec": 12, "maxfield": 3, "damage": 0}})
+                json.dump(sd, open(sp, "w"))
                 op = os.path.join(wd, "api_%s_%d.ndjson" % (fmt, k))
                 st = vlib.run_harness(["par-api", "--suite", sp, "--out", op, "--seed", str(vlib.seed() + k)])
                 traces += st.get("runs", 0)
                 hang = hang or st.get("hang", False)
                 afiles.append(op)
-        tv2 = vlib.trace_validate("TraceParObs", afiles, wd, timeout=1500, xmx="2g")
+        tv2 = vlib.trace_validate("TraceParObs", afiles, wd, timeout=1500, xmx="2g") if afiles else {"states": 0, "mismatches": []}
         states += tv2["states"]
         for m in tv2["mismatches"]:
             r = json.loads(vlib.shard_line(m["shard"], m["run"]))
@@ -551,8 +570,97 @@ def build_jobs(prop, tier):
         J = [mc_readera(tier), mc_fastq_b(tier)] + J
     elif prop in ("C03", "C05", "C09", "C17"):
         J = [mc_fasta_b(tier), mc_fastq_b(tier)] + J
+        if prop == "C03":
+            J = [McJob("bufredux", "BufRedux", "BufRedux", ["C03", "C14"], workers=4, timeout=600, xmx="4g")] + J
+    elif prop == "C14":
+        J = [McJob("bufredux", "BufRedux", "BufRedux", ["C03", "C14"], workers=4, timeout=600, xmx="4g")] + J
     elif prop == "C04":
         J = [mc_readera(tier)] + J
     elif prop == "C06":
         J = [mc_fasta_b(tier), mc_fastq_b(tier)] + J
+    return J
+
+
+# ------------------------------------------------------------------------------------------
+# drift detection: level-(B) model state vs. verif_snapshot() of the real reader
+
+class DriftJob:
+    """TLC prints the private reader state the (B) model predicts at every return (SnapFasta/SnapFastq);
+    the harness records the real reader's snapshots for the same inputs; differences are NOTES."""
+
+    FIELDS = {"fasta": ["state", "buf_len", "cap", "start", "search_pos", "seq_pos", "pos_line", "pos_byte"],
+              "fastq": ["state", "incomplete_pos", "buf_len", "cap", "start", "seq", "sep", "qual", "pos_line", "pos_byte"]}
+
+    def __init__(self, fmt, tier):
+        self.fmt, self.tier = fmt, tier
+        self.name = "drift-" + fmt
+
+    def run(self, wd):
+        t0 = time.time()
+        spec = "SnapFasta" if self.fmt == "fasta" else "SnapFastq"
+        cfgp = os.path.join(vlib.SPEC, "%s_%s.cfg" % (spec, self.tier))
+        consts = open(cfgp).read()
+        alpha = [int(v) for v in re.search(r"Alphabet = \{([^}]*)\}", consts).group(1).split(",")]
+        maxlen = int(re.search(r"MaxLen = (\d+)", consts).group(1))
+        caps = [int(v) for v in re.search(r"Caps = \{([^}]*)\}", consts).group(1).split(",")]
+        limit = int(re.search(r"GrowLimit = (\d+)", consts).group(1))
+        maxcalls = int(re.search(r"MaxCalls = (\d+)", consts).group(1))
+        cmd = vlib.java_cmd("4g", serial=False) + ["-workers", "1", "-metadir", os.path.join(wd, "mdsnap" + self.fmt), "-cleanup", "-noGenerateSpecTE",
+                                                   "-config", "%s_%s.cfg" % (spec, self.tier), spec + ".tla"]
+        env = dict(os.environ)
+        env.pop("JAVA_TOOL_OPTIONS", None)
+        p = subprocess.run(cmd, cwd=vlib.SPEC, env=env, stdout=subprocess.PIPE, stderr=subprocess.STDOUT, text=True, timeout=3600)
+        model = {}
+        for line in p.stdout.splitlines():
+            m = re.search(r'<<"SNAP", "(.*)">>\s*$', line)
+            if m:
+                j = json.loads(vlib.unescape_tla(m.group(1)))
+                model[(tuple(j["x"]), j["cap0"], j["call"])] = j
+        if not model or "No error has been found" not in p.stdout:
+            log(p.stdout[-2000:])
+            raise vlib.ToolError("snapshot model produced nothing")
+        s = suite(self.fmt, enum(alpha, maxlen), caps, {"fixed": [NEXT]}, chunks=[[0]], pols=[{"k": "dmax", "a": limit}], slots=1, extra=maxcalls)
+        sp = os.path.join(wd, "drift_%s.suite.json" % self.fmt)
+        json.dump(s, open(sp, "w"))
+        prefix = os.path.join(wd, "drift_%s" % self.fmt)
+        st = vlib.run_harness(["reader", "--suite", sp, "--out", prefix, "--shards", "1", "--seed", "1", "--snap"])
+        compared = diffs = 0
+        examples = []
+        x = cap0 = None
+        call = 0
+        for line in open(prefix + ".0.ndjson"):
+            e = json.loads(line)
+            if e["ev"] == "reset":
+                x, cap0, call = tuple(e["input"]), e["cap"], 0
+            elif e["ev"] == "call":
+                call += 1
+                mj = model.get((x, cap0, call))
+                if mj is None or "snap" not in e:
+                    continue
+                compared += 1
+                bad = [f for f in self.FIELDS[self.fmt] if e["snap"].get(f) != mj.get(f)]
+                if bad:
+                    diffs += 1
+                    if len(examples) < 3:
+                        examples.append({"input": list(x), "cap": cap0, "call": call, "fields": bad,
+                                         "model": {f: mj.get(f) for f in bad}, "code": {f: e["snap"].get(f) for f in bad}})
+        notes = []
+        if diffs:
+            notes.append({"file": "drift_%s" % self.fmt, "unexplained_runs": diffs, "examples": examples})
+            log("NOTE drift: %d of %d compared returns of %s::Reader::next() differ from the (B) model's private state, e.g. %s" % (diffs, compared, self.fmt, json.dumps(examples[:1])))
+        log("[drift] %s: %d model snapshots, %d returns compared, %d differ, %.1fs" % (self.fmt, len(model), compared, diffs, time.time() - t0))
+        return {"name": self.name, "kind": "drift", "mismatches": [], "states": 0, "transitions": 0, "traces": st.get("cases", 0), "events": st.get("events", 0),
+                "samples": [{"model_snapshot": next(iter(model.values()))}], "wall": time.time() - t0, "drift": notes,
+                "snapshots_compared": compared, "snapshots_differ": diffs}
+
+
+_old_build_jobs4 = build_jobs
+
+
+def build_jobs(prop, tier):
+    J = _old_build_jobs4(prop, tier)
+    if prop == "C01":
+        J.append(DriftJob("fasta", tier))
+    elif prop == "C02":
+        J.append(DriftJob("fastq", tier))
     return J
